@@ -1,7 +1,11 @@
 (* Entry point of the C06 correspondence.
    1   : a history on the job-controller model (same as C05 selector 1)
    3   : calcPGMinResources (spec with requests / priorities) -> pods cpu mem
-   4   : createOrUpdatePodGroup: create for spec0, optionally update for spec1 -> PodGroup
+   4   : createOrUpdatePodGroup: create for spec0, then a second call for spec1 with a fresh / empty /
+         orphaned lister copy and an optionally refused write -> error flag, PodGroup
+   5   : histories with refused PodGroup writes: laws only (the world model does not carry the PodGroup spec)
+   208 : successful sync leaves a mirroring PodGroup   209 : refused PodGroup write = error, no pod touched
+   210 : createOrUpdatePodGroup call law
    201 : exact-pod-set law on one observed sync step      202/207 : idempotence (pods / counters)
    203 : crash/restart convergence                         204 : pod markers
    205 : PodGroup mirrors spec                             206 : minResources admissible *)
@@ -32,11 +36,20 @@ Definition entry (sel : Z) (toks : list Z) : list Z :=
   | 1 => match run_dec dHistory toks with Some h => run_history h | None => bad_input end
   | 3 => match run_dec dSpecX toks with
          | Some (sp, xs) => eRes3 (calc_min_resources sp xs) | None => bad_input end
-  | 4 => match run_dec (let* p0 := dZ in let* s0 := dSpecX in let* upd := dBool in let* p1 := dZ in let* s1 := dSpecX in
-                        ret (p0, s0, upd, p1, s1)) toks with
-         | Some (p0, (sp0, xs0), upd, p1, (sp1, xs1)) =>
-             let g := pg_create sp0 xs0 p0 in ePG (if upd then pg_update g sp1 xs1 p1 else g)
+  | 4 => match run_dec (let* p0 := dZ in let* s0 := dSpecX in let* mode := dZ in let* p1 := dZ in let* s1 := dSpecX in
+                        let* fail := dBool in ret (p0, s0, mode, p1, s1, fail)) toks with
+         | Some (p0, (sp0, xs0), mode, p1, (sp1, xs1), fail) =>
+             let g0 := pg_create sp0 xs0 p0 in
+             let '(api, err) :=
+               match mode with
+               | 0 => (Some g0, false)
+               | 1 => create_or_update_pg (Some g0) (Some g0) sp1 xs1 p1 fail
+               | 2 => create_or_update_pg None (Some g0) sp1 xs1 p1 fail
+               | _ => create_or_update_pg (Some g0) None sp1 xs1 p1 fail
+               end in
+             eBool err ++ eOpt ePG api
          | None => bad_input end
+  | 5 => match run_dec dHistory toks with Some _ => [1] | None => bad_input end
   | 201 => match run_dec dStepCase toks with
            | Some (sp, r, fresh, pgv, b, a) => eBool (law_sync_step sp r fresh pgv b a) | None => bad_input end
   | 202 => match run_dec (dPair dObs dObs) toks with
@@ -50,6 +63,16 @@ Definition entry (sel : Z) (toks : list Z) : list Z :=
            | Some (t, i, v, r, m) => eBool (law_markers t i v r m) | None => bad_input end
   | 205 => match run_dec (let* sx := dSpecX in let* jp := dZ in let* q := dBool in let* g := dPG in ret (sx, jp, q, g)) toks with
            | Some ((sp, xs), jp, q, g) => eBool (law_pg sp xs jp q g) | None => bad_input end
+  | 208 => match run_dec (let* sx := dSpecX in let* rf := dReq in let* f1 := dBool in let* f2 := dBool in let* f3 := dBool in
+                          let* mo := dBool in let* b := dObs in let* a := dObs in let* g := dOpt dPG in
+                          ret (sx, fst rf, f1, f2, f3, mo, b, a, g)) toks with
+           | Some ((sp, xs), r, f1, f2, f3, mo, b, a, g) => eBool (law_pg_step sp xs r f1 f2 f3 mo b a g) | None => bad_input end
+  | 209 => match run_dec (let* fl := dBool in let* b := dObs in let* a := dObs in let* gb := dOpt dPG in let* ga := dOpt dPG in
+                          ret (fl, b, a, gb, ga)) toks with
+           | Some (fl, b, a, gb, ga) => eBool (law_pg_fault fl b a gb ga) | None => bad_input end
+  | 210 => match run_dec (let* sx := dSpecX in let* jp := dZ in let* lf := dBool in let* err := dBool in
+                          let* gb := dOpt dPG in let* ga := dOpt dPG in ret (sx, jp, lf, err, gb, ga)) toks with
+           | Some ((sp, xs), jp, lf, err, gb, ga) => eBool (law_pg_call sp xs jp lf err gb ga) | None => bad_input end
   | 206 => match run_dec (let* sx := dSpecX in let* r := dRes3 in ret (sx, r)) toks with
            | Some ((sp, xs), r) => eBool (law_minres sp xs r) | None => bad_input end
   | _ => bad_input
